@@ -8,15 +8,18 @@ from vfw.engine import Phase, PropertyViolation
 
 PROPERTY_ID = "C02"
 RULE = (
-    "Generator: ModelSpec (<=5x6x6 with groups) realised through one of 4 build paths, then 1-30/50 editing "
+    "Generator: ModelSpec (<=5x6x6 with groups) realised through one of the build paths of vfw/build.py, then 1-30/50 editing "
     "operations outside contexts with all documented argument shapes (objects or ids, copies of model objects, "
     "combine/replace, destructive, remove_orphans, single vs list, failing arguments): add/remove reactions, "
-    "metabolites, boundaries, groups and group members; Reaction.add/subtract_metabolites, *=, +=, -=, "
+    "metabolites, boundaries, groups and group members; prune_unused_metabolites/reactions; Reaction.add/subtract_metabolites, *=, +=, -=, "
     "build_reaction_from_string; bounds; rules (text and GPR); gene knock-outs; remove_genes; rename_genes; id "
     "renames; objective (7 shapes) and direction; merge; in-place metadata; copies, solver switches, repair and "
     "optimisations interleaved. Oracle: executable reference model of the documented semantics (vfw/refmodel.py, "
     "plain dicts) compared with the public Python view after every step, expected outcome ok/raises compared, a "
-    "raising op must leave the state unchanged, plus the cross-reference audit. Non-trivial: >=3 successful mutating "
+    "raising op must leave the state unchanged, plus the cross-reference audit. Phase escape: escape_ID on specs with "
+    "rich identifiers, result compared with the model built from the spec renamed by the documented table (skipped "
+    "when two identifiers escape to one), cross references and solver audited, then 0-2 further calls. "
+    "Non-trivial: >=3 successful mutating "
     "ops from >=2 op kinds incl. >=1 structural; distinct by canonical hash."
 )
 ASSUMPTIONS = [
